@@ -310,8 +310,8 @@ func genSynth(rng *prng.R, n int) []CaseD {
 		if dev(12, "lax") {
 			env.Lax = true
 		}
-		debug := dev(6, "debug-body")
-		if dev(6, "debug-mode") {
+		debug := dev(4, "debug-body")
+		if dev(4, "debug-mode") {
 			env.AllowDebug = true
 		}
 		tdxSvn := [16]int64{3, 0, 4, 4, 4, 4, 4, 4, 0, 0, 0, 0, 0, 0, 0, 0}
@@ -375,9 +375,13 @@ func genSynth(rng *prng.R, n int) []CaseD {
 			misc: "00000000", miscMask: "FFFFFFFF", attrs: "11000000000000000000000000000000", attrMask: "FBFFFFFFFFFFFFFF0000000000000000",
 			mrsigner: strings.ToUpper(hex.EncodeToString(synthQeMrSigner[:])),
 			issue:    ts.Add(-time.Duration(r.Range(1, 20*86400)) * time.Second).Format(tsFmt)}
-		for k, sv := 0, int(qeSvn)+r.Range(-1, 2); k < r.Range(1, 3) && sv >= 0; k, sv = k+1, sv-r.Range(1, 2) {
+		sv0 := int(qeSvn) - r.Intn(2)
+		if r.Chance(25) {
+			sv0 = int(qeSvn) + r.Range(1, 2)
+		}
+		for k, sv := 0, sv0; k < r.Range(1, 3) && sv >= 0; k, sv = k+1, sv-r.Range(1, 2) {
 			st := "UpToDate"
-			if k > 0 || r.Chance(12) {
+			if k > 0 && r.Chance(70) || r.Chance(10) {
 				st = statuses[r.Intn(len(statuses))]
 			}
 			if r.Chance(3) {
@@ -436,7 +440,7 @@ func genSynth(rng *prng.R, n int) []CaseD {
 				l.sgx = addSvn(l.sgx, -1, r.Intn(8))
 				l.pcesvn -= r.Intn(2)
 			}
-			if k > 0 || r.Chance(35) {
+			if k > 0 && r.Chance(60) || r.Chance(30) {
 				l.status = statuses[r.Intn(len(statuses))]
 			}
 			if r.Chance(3) {
